@@ -12,7 +12,7 @@ use white_whale_std::pool_network::incentive::{self as inc, Flow};
 
 use crate::engine::{gen, hash_of, Check, Fail, Property, Rec, TResult, Tier};
 use crate::ensure;
-use crate::incentives::{flow_id, FeeKind, IncCfg, IncWorld, LpKind, MAX_DUR, MIN_DUR};
+use crate::incentives::{end_of, flow_id, FeeKind, IncCfg, IncWorld, LpKind, MAX_DUR, MIN_DUR};
 use crate::refmath::u;
 use crate::world::asset;
 
@@ -186,7 +186,7 @@ impl Check for WeightsAndClaims {
         "weights_and_claims_history"
     }
     fn rule(&self) -> &'static str {
-        "incentive contract (cw20 or native LP) with 4 users, position amounts 1..2^100, four unbonding durations across the allowed range, up to 3 concurrent flows (native and cw20 rewards) with expansions, histories of 30..60 / up to 150 operations over >= 20 epochs {open (own funds, or paid by another user naming the owner as receiver), expand an existing position (likewise), close an existing position, withdraw, claim, claim twice in one epoch, permissionless snapshot by any caller at any point of the epoch, 1..30 new epochs with or without a snapshot first, open / expand flow}. After every step: raw GLOBAL_WEIGHT == sum of raw ADDRESS_WEIGHT; when the current epoch has a snapshot, the address weights reported by CurrentEpochRewardsShare sum to <= the snapshot; a second claim in the same epoch pays nothing; what a claim pays per flow is <= the sum of that flow's emissions over the claimed epochs (recomputed from the flow's raw state); a successful claim pays exactly what the Rewards query returned immediately before it (<= 100 unclaimed epochs). The two known weight-accounting defects are matched by structural signatures. Non-trivial: >= 2 users claimed a non-zero reward and >= 20 epochs elapsed."
+        "incentive contract (cw20 or native LP) with 4 users, position amounts 1..2^100, four unbonding durations across the allowed range, up to 3 concurrent flows (native and cw20 rewards; default, future and past start epochs) with expansions (with or without a new end), histories of 30..60 / up to 150 operations over >= 20 epochs {open (own funds, or paid by another user naming the owner as receiver), expand an existing position (likewise), close an existing position, withdraw, claim, claim twice in one epoch, permissionless snapshot by any caller at any point of the epoch, 1..30 new epochs with or without a snapshot first, open / expand flow}. After every step: raw GLOBAL_WEIGHT == sum of raw ADDRESS_WEIGHT; when the current epoch has a snapshot, the address weights reported by CurrentEpochRewardsShare sum to <= the snapshot; a second claim in the same epoch pays nothing; what a claim pays per flow is <= the sum of that flow's emissions over the claimed epochs (recomputed from the flow's raw state); a successful claim pays exactly what the Rewards query returned immediately before it (<= 100 unclaimed epochs). The two known weight-accounting defects are matched by structural signatures. Non-trivial: >= 2 users claimed a non-zero reward and >= 20 epochs elapsed."
     }
     fn strategy(&self, tier: Tier) -> BoxedStrategy<Case> {
         let (lo, hi) = tier.pick((30usize, 60usize), (30usize, 150usize));
@@ -398,8 +398,13 @@ impl Check for WeightsAndClaims {
                         .exec_inc(
                             &who,
                             &inc::ExecuteMsg::OpenFlow {
-                                start_epoch: None,
-                                end_epoch: Some(epoch + *epochs as u64),
+                                // one flow in four starts a few epochs ahead, one in eight a few epochs back
+                                start_epoch: match a % 8 {
+                                    0 | 1 => Some(epoch + 1 + (a / 8 % 4) as u64),
+                                    2 => Some(epoch.saturating_sub(1 + (a / 8 % 4) as u64)),
+                                    _ => None,
+                                },
+                                end_epoch: Some(epoch + 5 + *epochs as u64),
                                 curve: None,
                                 flow_asset: asset(&fa, a),
                                 flow_label: None,
@@ -432,7 +437,8 @@ impl Check for WeightsAndClaims {
                             &who,
                             &inc::ExecuteMsg::ExpandFlow {
                                 flow_identifier: flow_id(f.flow_id),
-                                end_epoch: None,
+                                // one expansion in four also moves the end out by 1..16 epochs
+                                end_epoch: if sel & 0x300 == 0x300 { Some(end_of(&f) + 1 + (*sel as u64 >> 12)) } else { None },
                                 flow_asset: asset(&fa, a),
                             },
                             &funds,
